@@ -395,6 +395,7 @@ def gen_spec(r, repo, size=None):
                 g["vel"] = [v0, v0 + pos_num(r)]
             goals.append(g)
         spec["problems"].append({"id": ids.new(), "init": init, "goals": goals})
+    spec["var"] = gen_var(r, spec)
     return spec
 
 
@@ -447,10 +448,46 @@ def mk_occ(occ):
     return SetBasedPrediction(first["iv"][0] if isinstance(first, dict) else first, out)
 
 
+def gen_var(r, spec):
+    """The dimensions beyond the object content (harness/c03_dims.py lists them): construction path, entry points, value
+    classes, histories before the write, and what the writer object is / did before.  Every field is optional; a spec
+    without "var" is built the plain way (corpus files of earlier rounds)."""
+    hist_ops = ["reassign", "queries", "fail", "remove", "transform", "copy", "pickle", "convert2d"]
+    v = {
+        "setters": r.random() < 0.3,                  # objects assembled through setters / add_* methods instead of constructors
+        "np": r.random() < 0.3,                       # numpy scalar types where Python floats are usual
+        "np32": r.random() < 0.15,                    # np.float32 lengths / radii / dt
+        "entry": r.choice(["single", "single", "list", "scenario"]),
+        "refs_by_library": r.random() < 0.3,          # sign / light references added by add_traffic_sign(sign, lanelet_ids)
+        "cleanup": r.random() < 0.3,                  # explicit cleanup_*_references() after assembling
+        "lanelet3d": r.random() < 0.15,
+        "dup_refs": r.random() < 0.15,
+        "goal_cls": r.choice(["CustomState", "CustomState", "KSState", "InitialState"]),
+        "sid": {"cooperative": r.random() < 0.2, "prediction": r.choice([None, None, [1, 2]])},
+        "pos_list": r.random() < 0.2,                 # state positions given as Python lists
+        "geo_default": r.random() < 0.05,             # GeoTransformation() with every argument left at its default
+        "np_state": r.random() < 0.05,                 # exact state values as np.float32 (is_real_number accepts them)
+        "hist": [op for op in hist_ops if r.random() < 0.18],
+        "hseed": r.randrange(10 ** 6),
+        "writer": {
+            "cls": r.choice(["facade", "facade", "xml"]),
+            "override": r.random() < 0.3,             # author / affiliation / source / tags / location given to the writer
+            "precision": r.choice(["spec"] * 6 + ["default", 0, 15, 20]),
+            "first": r.choice([None, None, None, "write_to_file", "write_scenario_to_file", "fail", "fail_mid", "skip"]),
+            "decoy": r.random() < 0.25,               # another writer with another precision constructed in between
+            "pb_between": r.random() < 0.1,           # a protobuf write in between
+            "check_validity": r.random() < 0.25,
+            "filename_none": r.random() < 0.08,       # filename=None: the benchmark id in the working directory
+        },
+    }
+    return v
+
+
 def build(spec):
     """-> (scenario, planning_problem_set, writer_kwargs)."""
     from commonroad.common.common_lanelet import LaneletType, LineMarking, RoadUser, StopLine
     from commonroad.common.util import AngleInterval, Interval, Time
+    from commonroad.geometry.shape import Circle, Rectangle, ShapeGroup
     from commonroad.planning.goal import GoalRegion
     from commonroad.planning.planning_problem import PlanningProblem, PlanningProblemSet
     from commonroad.prediction.prediction import TrajectoryPrediction
@@ -467,87 +504,285 @@ def build(spec):
     from commonroad.scenario.traffic_sign import TrafficSign, TrafficSignElement
     from commonroad.scenario.trajectory import Trajectory
 
+    V = spec.get("var") or {}
+    setters = bool(V.get("setters"))
+
+    def N(x):        # value class: numpy scalar where a Python float is usual
+        if V.get("np") and isinstance(x, float):
+            return np.float64(x)
+        return x
+
+    def N32(x):      # lengths / radii / dt as np.float32 (changes the value: the data is read back from the objects)
+        if V.get("np32") and isinstance(x, float) and 1e-30 < abs(x) < 1e30:
+            return np.float32(x)
+        return N(x)
+
+    def shape(s):
+        k = s["k"]
+        if k == "rect":
+            if setters:
+                rect = Rectangle(1.0, 1.0)
+                rect.length, rect.width, rect.center, rect.orientation = N32(s["l"]), N32(s["w"]), np.array(s["c"], dtype=float), N(s["o"])
+                return rect
+            return Rectangle(N32(s["l"]), N32(s["w"]), np.array(s["c"], dtype=float), N(s["o"]))
+        if k == "circ":
+            if setters:
+                c = Circle(1.0)
+                c.radius, c.center = N32(s["r"]), np.array(s["c"], dtype=float)
+                return c
+            return Circle(N32(s["r"]), np.array(s["c"], dtype=float))
+        if k == "poly":
+            return mk_shape(s)
+        return ShapeGroup([shape(x) for x in s["s"]])
+
+    def val(v, angle_iv=False):
+        if isinstance(v, dict):
+            a, b = v["iv"]
+            return AngleInterval(N(a), N(b)) if angle_iv else Interval(N(a), N(b))
+        if V.get("np_state") and isinstance(v, float) and 1e-30 < abs(v) < 1e30:
+            return np.float32(v)
+        return N(v)
+
+    def state(s, cls=None, as_list=False):
+        c = getattr(st, cls or s["cls"])
+        if isinstance(s["pos"], dict):
+            pos = shape(s["pos"])
+        else:   # a Python list is a position the writer accepts (obstacle constructors do not: only planning problems get one)
+            pos = [float(x) for x in s["pos"]] if (as_list and V.get("pos_list")) else np.array(s["pos"], dtype=float)
+        kw = {"time_step": s["t"], "position": pos, "orientation": val(s["ori"], True)}
+        for a, v in s["vals"].items():
+            kw[a] = val(v)
+        if setters and c is st.CustomState:      # attributes added one by one
+            cs = st.CustomState(time_step=kw.pop("time_step"))
+            for a, v in kw.items():
+                cs.add_attribute(a)
+                cs.set_value(a, v)
+            return cs
+        return c(**kw)
+
     b = spec["benchmark"]
-    sid = ScenarioID(False, b[0], b[1], b[2], b[3], b[4], b[5])
+    sidv = V.get("sid") or {}
+    sid = ScenarioID(bool(sidv.get("cooperative")), b[0], b[1], b[2], b[3], b[4],
+                     sidv.get("prediction") if (sidv.get("prediction") is not None and b[5] is not None) else b[5])
     loc = None
     if spec["location"] is not None:
         L = spec["location"]
         geo = env = None
         if L["geo"] is not None:
             g = L["geo"]
-            geo = GeoTransformation(g["ref"], g["x"], g["y"], g["rot"], g["scale"])
+            if V.get("geo_default"):
+                geo = GeoTransformation()
+            elif setters:
+                geo = GeoTransformation()
+                geo.geo_reference, geo.x_translation, geo.y_translation = g["ref"], N(g["x"]), N(g["y"])
+                geo.z_rotation, geo.scaling = N(g["rot"]), N32(g["scale"])
+            else:
+                geo = GeoTransformation(g["ref"], N(g["x"]), N(g["y"]), N(g["rot"]), N32(g["scale"]))
         if L["env"] is not None:
             e = L["env"]
-            env = Environment(Time(e["h"], e["m"]), TimeOfDay[e["tod"]], Weather[e["weather"]], Underground[e["underground"]])
-        loc = Location(L["geo_name_id"], L["lat"], L["lon"], geo, env)
+            if setters:
+                env = Environment()
+                env.time, env.time_of_day = Time(e["h"], e["m"], day=3, month=2, year=2020), TimeOfDay[e["tod"]]
+                env.weather, env.underground = Weather[e["weather"]], Underground[e["underground"]]
+            else:
+                env = Environment(Time(e["h"], e["m"]), TimeOfDay[e["tod"]], Weather[e["weather"]], Underground[e["underground"]])
+        if setters:
+            loc = Location()
+            loc.geo_name_id, loc.gps_latitude, loc.gps_longitude = L["geo_name_id"], N(L["lat"]), N(L["lon"])
+            loc.geo_transformation, loc.environment = geo, env
+        else:
+            loc = Location(L["geo_name_id"], N(L["lat"]), N(L["lon"]), geo, env)
     tags = {Tag[t] for t in spec["tags"]}
-    sc = Scenario(spec["dt"], sid, author=spec["author"], tags=tags, affiliation=spec["affiliation"], source=spec["source"],
-                  location=loc)
+    if setters:
+        sc = Scenario(0.1, sid)
+        sc.dt = N32(spec["dt"])
+        sc.author, sc.tags, sc.affiliation, sc.source, sc.location = spec["author"], tags, spec["affiliation"], spec["source"], loc
+    else:
+        sc = Scenario(N32(spec["dt"]), sid, author=spec["author"], tags=tags, affiliation=spec["affiliation"], source=spec["source"],
+                      location=loc)
+    by_lib = bool(V.get("refs_by_library"))
     lanelets = []
     for la in spec["lanelets"]:
         left = np.array(la["left"], dtype=float)
         right = np.array(la["right"], dtype=float)
+        if V.get("lanelet3d"):
+            z = np.linspace(0.25, 1.5, len(left)).reshape(-1, 1)
+            left, right = np.hstack([left, z]), np.hstack([right, z])
         stop = None
         if la["stop"] is not None:
             s = la["stop"]
-            stop = StopLine(np.array(s["start"], dtype=float) if s["start"] is not None else None,
-                            np.array(s["end"], dtype=float) if s["end"] is not None else None, LineMarking[s["lm"]],
-                            None if s["refs_none"] and not s["signs"] else set(s["signs"]),
-                            None if s["refs_none"] and not s["lights"] else set(s["lights"]))
-        lanelets.append(Lanelet(
-            left, (left + right) / 2, right, la["id"], list(la["pred"]), list(la["succ"]),
-            la["adjl"][0] if la["adjl"] else None, la["adjl"][1] if la["adjl"] else None,
-            la["adjr"][0] if la["adjr"] else None, la["adjr"][1] if la["adjr"] else None,
-            LineMarking[la["lml"]], LineMarking[la["lmr"]], stop,
-            {LaneletType[t] for t in la["types"]}, {RoadUser[t] for t in la["oneway"]}, {RoadUser[t] for t in la["bidir"]},
-            set(la["signs"]), set(la["lights"])))
-    net = LaneletNetwork.create_from_lanelet_list(lanelets, cleanup_ids=False)
+            sargs = (np.array(s["start"], dtype=float) if s["start"] is not None else None,
+                     np.array(s["end"], dtype=float) if s["end"] is not None else None, LineMarking[s["lm"]],
+                     None if s["refs_none"] and not s["signs"] else set(s["signs"]),
+                     None if s["refs_none"] and not s["lights"] else set(s["lights"]))
+            if setters:
+                stop = StopLine(None, None, LineMarking.SOLID)
+                stop.start, stop.end, stop.line_marking, stop.traffic_sign_ref, stop.traffic_light_ref = sargs
+            else:
+                stop = StopLine(*sargs)
+        pred = list(la["pred"]) + (list(la["pred"][:1]) if V.get("dup_refs") else [])
+        signs, lights = (set(), set()) if by_lib else (set(la["signs"]), set(la["lights"]))
+        if setters:
+            ll = Lanelet(left, (left + right) / 2, right, la["id"] + 7)      # id re-assigned before the lanelet joins a network
+            ll.lanelet_id = la["id"]
+            for x in pred:
+                ll.add_predecessor(x)
+            ll.successor = list(la["succ"])
+            if la["adjl"]:
+                ll.adj_left, ll.adj_left_same_direction = la["adjl"][0], la["adjl"][1]
+            if la["adjr"]:
+                ll.adj_right, ll.adj_right_same_direction = la["adjr"][0], la["adjr"][1]
+            ll.line_marking_left_vertices, ll.line_marking_right_vertices = LineMarking[la["lml"]], LineMarking[la["lmr"]]
+            if stop is not None:
+                ll.stop_line = stop
+            ll.lanelet_type = {LaneletType[t] for t in la["types"]}
+            ll.user_one_way = {RoadUser[t] for t in la["oneway"]}
+            ll.user_bidirectional = {RoadUser[t] for t in la["bidir"]}
+            for x in sorted(signs):
+                ll.add_traffic_sign_to_lanelet(x)
+            for x in sorted(lights):
+                ll.add_traffic_light_to_lanelet(x)
+            lanelets.append(ll)
+        else:
+            lanelets.append(Lanelet(
+                left, (left + right) / 2, right, la["id"], pred, list(la["succ"]),
+                la["adjl"][0] if la["adjl"] else None, la["adjl"][1] if la["adjl"] else None,
+                la["adjr"][0] if la["adjr"] else None, la["adjr"][1] if la["adjr"] else None,
+                LineMarking[la["lml"]], LineMarking[la["lmr"]], stop,
+                {LaneletType[t] for t in la["types"]}, {RoadUser[t] for t in la["oneway"]}, {RoadUser[t] for t in la["bidir"]},
+                signs, lights))
+    if setters:
+        net = LaneletNetwork()
+        for ll in lanelets:
+            net.add_lanelet(ll)
+    else:
+        net = LaneletNetwork.create_from_lanelet_list(lanelets, cleanup_ids=False)
+    via_scenario = V.get("entry") == "scenario"
+    later = []
+
+    def refs(kind, oid):
+        return {la["id"] for la in spec["lanelets"] if oid in la[kind]} if by_lib else set()
     for s in spec["signs"]:
         els = [TrafficSignElement(getattr(ts_mod, e["cls"])[e["name"]], list(e["vals"])) for e in s["els"]]
-        net.add_traffic_sign(TrafficSign(s["id"], els, set(s["first"]),
-                                         np.array(s["pos"], dtype=float) if s["pos"] is not None else None, s["virtual"]), set())
+        pos = np.array(s["pos"], dtype=float) if s["pos"] is not None else None
+        if setters:
+            sign = TrafficSign(s["id"] + 7, els, set(s["first"]), None)
+            sign.traffic_sign_id, sign.position, sign.virtual = s["id"], pos, s["virtual"]
+        else:
+            sign = TrafficSign(s["id"], els, set(s["first"]), pos, s["virtual"])
+        if via_scenario:
+            later.append((sign, refs("signs", s["id"])))
+        else:
+            net.add_traffic_sign(sign, refs("signs", s["id"]))
     for t in spec["lights"]:
-        cyc = TrafficLightCycle([TrafficLightCycleElement(TrafficLightState[c], d) for c, d in t["cycle"]], t["offset"])
-        net.add_traffic_light(TrafficLight(t["id"], np.array(t["pos"], dtype=float) if t["pos"] is not None else None, cyc,
-                                           active=t["active"], direction=TrafficLightDirection[t["dir"]]), set())
+        elems = [TrafficLightCycleElement(TrafficLightState[c], d) for c, d in t["cycle"]]
+        pos = np.array(t["pos"], dtype=float) if t["pos"] is not None else None
+        if setters:
+            cyc = TrafficLightCycle()
+            cyc.cycle_elements, cyc.time_offset = elems, t["offset"]
+            light = TrafficLight(t["id"] + 7, pos)
+            light.traffic_light_id = t["id"]
+            light.traffic_light_cycle, light.active, light.direction = cyc, t["active"], TrafficLightDirection[t["dir"]]
+        else:
+            cyc = TrafficLightCycle(elems, t["offset"])
+            light = TrafficLight(t["id"], pos, cyc, active=t["active"], direction=TrafficLightDirection[t["dir"]])
+        if via_scenario:
+            later.append((light, refs("lights", t["id"])))
+        else:
+            net.add_traffic_light(light, refs("lights", t["id"]))
     for it in spec["intersections"]:
-        incs = [IntersectionIncomingElement(i["id"], set(i["lanelets"]), set(i["right"]), set(i["straight"]), set(i["left"]),
-                                            i["left_of"]) for i in it["incomings"]]
-        net.add_intersection(Intersection(it["id"], incs, set(it["crossings"])))
+        incs = []
+        for i in it["incomings"]:
+            if setters:
+                inc = IntersectionIncomingElement(i["id"] + 7)
+                inc.incoming_id = i["id"]
+                inc.incoming_lanelets, inc.successors_right, inc.successors_straight = set(i["lanelets"]), set(i["right"]), set(i["straight"])
+                inc.successors_left, inc.left_of = set(i["left"]), i["left_of"]
+            else:
+                inc = IntersectionIncomingElement(i["id"], set(i["lanelets"]), set(i["right"]), set(i["straight"]), set(i["left"]),
+                                                  i["left_of"])
+            incs.append(inc)
+        if setters:
+            inter = Intersection(it["id"] + 7, incs[:1], set(it["crossings"]) if it["crossings"] else None)
+            inter.intersection_id, inter.incomings = it["id"], incs
+        else:
+            inter = Intersection(it["id"], incs, set(it["crossings"]))
+        if via_scenario:
+            later.append((inter, None))
+        else:
+            net.add_intersection(inter)
     sc.add_objects(net)
+    for obj, ids in later:
+        if ids is None:
+            sc.add_objects(obj)
+        else:
+            sc.add_objects(obj, ids)
+    if V.get("cleanup"):
+        sc.lanelet_network.cleanup_lanelet_references()
+        sc.lanelet_network.cleanup_traffic_sign_references()
+        sc.lanelet_network.cleanup_traffic_light_references()
+    obstacles = []
     for o in spec["static"]:
-        sc.add_objects(StaticObstacle(o["id"], ObstacleType[o["type"]], mk_shape(o["shape"]), mk_state(o["init"])))
+        obstacles.append(StaticObstacle(o["id"], ObstacleType[o["type"]], shape(o["shape"]), state(o["init"])))
     for o in spec["dynamic"]:
-        shape = mk_shape(o["shape"])
+        shp = shape(o["shape"])
         if o.get("traj"):
-            pred = TrajectoryPrediction(Trajectory(o["traj"][0]["t"], [mk_state(s) for s in o["traj"]]), shape)
+            pred = TrajectoryPrediction(Trajectory(o["traj"][0]["t"], [state(s) for s in o["traj"]]), shp)
         else:
             pred = mk_occ(o["occ"])
-        sc.add_objects(DynamicObstacle(o["id"], ObstacleType[o["type"]], shape, mk_state(o["init"]), pred,
-                                       initial_signal_state=mk_signal(o["sig0"]) if o["sig0"] else None,
-                                       signal_series=[mk_signal(s) for s in o["series"]] if o["series"] else None))
+        sig0 = mk_signal(o["sig0"]) if o["sig0"] else None
+        series = [mk_signal(s) for s in o["series"]] if o["series"] else None
+        if setters:
+            d = DynamicObstacle(o["id"], ObstacleType[o["type"]], shp, state(o["init"]))
+            d.prediction = pred
+            if sig0 is not None:
+                d.initial_signal_state = sig0
+            if series is not None:
+                d.signal_series = series
+        else:
+            d = DynamicObstacle(o["id"], ObstacleType[o["type"]], shp, state(o["init"]), pred, initial_signal_state=sig0,
+                                signal_series=series)
+        obstacles.append(d)
     for o in spec["phantom"]:
-        sc.add_objects(PhantomObstacle(o["id"], mk_occ(o["occ"])))
+        obstacles.append(PhantomObstacle(o["id"], mk_occ(o["occ"])))
     for o in spec["envobs"]:
-        sc.add_objects(EnvironmentObstacle(o["id"], ObstacleType[o["type"]], mk_shape(o["shape"])))
+        obstacles.append(EnvironmentObstacle(o["id"], ObstacleType[o["type"]], shape(o["shape"])))
+    if V.get("entry") == "list":
+        if obstacles:
+            sc.add_objects(obstacles)
+    else:
+        for o in obstacles:
+            sc.add_objects(o)
     pps = []
+    gcls = getattr(st, V.get("goal_cls", "CustomState"))
     for p in spec["problems"]:
         goals, lan = [], {}
         for gi, g in enumerate(p["goals"]):
             kw = {"time_step": Interval(g["time"][0], g["time"][1])}
             if isinstance(g["pos"], dict):
-                kw["position"] = mk_shape(g["pos"])
+                kw["position"] = shape(g["pos"])
             elif g["pos"] == "lanelets":
                 polys = [net.find_lanelet_by_id(i).polygon for i in g["lanelets"]]
-                from commonroad.geometry.shape import ShapeGroup
                 kw["position"] = ShapeGroup(polys)
                 lan[gi] = list(g["lanelets"])
             if g["ori"] is not None:
-                kw["orientation"] = AngleInterval(g["ori"][0], g["ori"][1])
+                kw["orientation"] = AngleInterval(N(g["ori"][0]), N(g["ori"][1]))
             if g["vel"] is not None:
-                kw["velocity"] = Interval(g["vel"][0], g["vel"][1])
-            goals.append(st.CustomState(**kw))
-        pps.append(PlanningProblem(p["id"], mk_state(p["init"]), GoalRegion(goals, lan if lan else None)))
-    pp_set = PlanningProblemSet(pps)
+                kw["velocity"] = Interval(N(g["vel"][0]), N(g["vel"][1]))
+            goals.append(gcls(**kw))
+        if setters:
+            pp = PlanningProblem(p["id"], state(p["init"], as_list=True), GoalRegion([goals[0]]))
+            gr = GoalRegion([goals[0]], lan if lan else None)      # lanelets_of_goal_position: the setter only warns once set
+            gr.state_list = goals
+            pp.goal = gr
+        else:
+            pp = PlanningProblem(p["id"], state(p["init"], as_list=True), GoalRegion(goals, lan if lan else None))
+        pps.append(pp)
+    if setters:
+        pp_set = PlanningProblemSet()
+        for pp in pps:
+            pp_set.add_planning_problem(pp)
+    else:
+        pp_set = PlanningProblemSet(pps)
     kw = {"decimal_precision": spec["precision"]}
     return sc, pp_set, kw
